@@ -193,7 +193,9 @@ pub fn run_case(c: &Case, drv: &mut Drv) -> Outcome {
             let complete_len = ends.iter().take(expected.len()).last().copied().unwrap_or(0) as usize;
             // zero padding after the last complete record is fine; anything else is a torn tail
             let tail_is_padding = file.len() >= complete_len && file[complete_len..].iter().all(|b| *b == 0) && file.len() - complete_len < H;
-            let whole = c.trunc.is_none() || tail_is_padding;
+            // a partially present trailer may be reported either way (not reusing such a log is
+            // merely conservative); only a log nobody cut must be reusable
+            let whole = c.trunc.is_none();
             if whole && !got_clean {
                 oracle_fail = Some("a completely written log is reported as not cleanly readable (it would never be reused)".into());
             }
@@ -422,6 +424,15 @@ pub fn run(tier: &str, seed: u64, drv_path: &str, replay: Option<&str>, corpus: 
                     vec![s]
                 };
                 jobs.push(Job::One(Case { sessions, cut: None, trunc: None, dseed: rng.next() }, "family.boundary"));
+            }
+        }
+    }
+
+    // cuts around a zero-padded block end (status of a file that ends exactly after the padding)
+    for pad in 1..H {
+        for d in [0usize, 1, 2] {
+            for (tr, sess) in [(B - d, vec![vec![B - H - pad, 5]]), (B + d, vec![vec![B - H - pad], vec![5]])] {
+                jobs.push(Job::One(Case { sessions: sess, cut: None, trunc: Some(tr), dseed: rng.next() }, "family.padding-cut"));
             }
         }
     }
